@@ -205,7 +205,19 @@ func RenderNode(id int, ctx bool, args []string) string {
 	if ctx {
 		c = "c"
 	}
-	return "N" + strconv.Itoa(id) + c + "(" + strings.Join(args, ",") + ")"
+	return shorten("N" + strconv.Itoa(id) + c + "(" + strings.Join(args, ",") + ")")
+}
+
+// shorten is the same rule as act.Shorten (renderings above 1 KiB become a digest).
+func shorten(s string) string {
+	if len(s) <= 1024 {
+		return s
+	}
+	h := uint64(14695981039346656037)
+	for i := 0; i < len(s); i++ {
+		h = (h ^ uint64(s[i])) * 1099511628211
+	}
+	return "#" + strconv.FormatUint(h, 16) + ":" + strconv.Itoa(len(s))
 }
 
 // Mutate returns an abnormal token sequence derived from toks: delete,
@@ -284,4 +296,135 @@ func canAbut(a, b string) bool {
 		return false
 	}
 	return bracket(x) || bracket(y)
+}
+
+// DeriveDeep produces a sentence whose parse needs a stack of at least `depth`
+// entries: it finds a nonterminal T that can re-derive itself with at least one
+// symbol to its left (right or centre recursion) and unrolls that cycle depth
+// times; everything else is derived as shallowly as possible.  It returns nil if
+// the grammar has no such cycle.
+func (g *Grammar) DeriveDeep(r *prng.R, depth int) *Sentence {
+	if len(g.Prods) == 0 {
+		return nil
+	}
+	// reach[A][B]: B occurs in some sentential form derived from A
+	reach := map[string]map[string]bool{}
+	for _, p := range g.Prods {
+		reach[p.Head] = map[string]bool{}
+	}
+	for changed := true; changed; {
+		changed = false
+		for _, p := range g.Prods {
+			for _, a := range p.Alts {
+				if a.Error {
+					continue
+				}
+				for _, s := range a.Syms {
+					if s.Kind != NT {
+						continue
+					}
+					if !reach[p.Head][s.Name] {
+						reach[p.Head][s.Name] = true
+						changed = true
+					}
+					for b := range reach[s.Name] {
+						if !reach[p.Head][b] {
+							reach[p.Head][b] = true
+							changed = true
+						}
+					}
+				}
+			}
+		}
+	}
+	// step(X, T): an alternative of X and a position >= 1 holding a nonterminal that is T or reaches T
+	type choice struct {
+		alt *Alt
+		pos int
+	}
+	step := func(x, t string) []choice {
+		var cs []choice
+		for _, a := range g.prodM[x].Alts {
+			if a.Error {
+				continue
+			}
+			for i, s := range a.Syms {
+				if i >= 1 && s.Kind == NT && (s.Name == t || reach[s.Name][t]) {
+					cs = append(cs, choice{a, i})
+				}
+			}
+		}
+		return cs
+	}
+	start := g.Prods[0].Head
+	var target string
+	var names []string
+	for _, p := range g.Prods {
+		names = append(names, p.Head)
+	}
+	for _, t := range names {
+		if (t == start || reach[start][t]) && len(step(t, t)) > 0 {
+			target = t
+			break
+		}
+	}
+	if target == "" {
+		return nil
+	}
+	s := &Sentence{}
+	s.nodes = MaxNodes + 1 // everything that is not on the forced path is derived minimally
+	remaining := depth
+	var forced func(nt string) *Node
+	forced = func(nt string) *Node {
+		var cs []choice
+		if remaining > 0 {
+			if nt == target {
+				cs = step(nt, target)
+			} else if reach[nt][target] {
+				// head towards the target: any position will do
+				for _, a := range g.prodM[nt].Alts {
+					if a.Error {
+						continue
+					}
+					for i, sy := range a.Syms {
+						if sy.Kind == NT && (sy.Name == target || reach[sy.Name][target]) {
+							cs = append(cs, choice{a, i})
+						}
+					}
+				}
+			}
+		}
+		if len(cs) == 0 {
+			return g.derive(r, nt, g.minH[nt], s)
+		}
+		c := prng.Pick(r, cs)
+		if nt == target {
+			remaining--
+		}
+		n := &Node{Alt: c.alt}
+		for i, sym := range c.alt.Syms {
+			switch {
+			case sym.Kind == NT && i == c.pos:
+				n.Children = append(n.Children, forced(sym.Name))
+			case sym.Kind == NT:
+				n.Children = append(n.Children, g.derive(r, sym.Name, g.minH[sym.Name], s))
+			default:
+				lex := sym.Name
+				if sym.Kind == Tok {
+					if ld := g.LexDefOf(sym.Name); ld != nil && len(ld.Samples) > 0 {
+						lex = prng.Pick(r, ld.Samples)
+					}
+				}
+				n.Children = append(n.Children, &Node{TokName: sym.Name, Lexeme: lex, TokIndex: len(s.Tokens)})
+				s.Tokens = append(s.Tokens, Token{Name: sym.Name, Lit: lex})
+			}
+		}
+		return n
+	}
+	s.Tree = forced(start)
+	g.layout(r, s)
+	if !g.Ambiguous {
+		s.Result = g.eval(s.Tree, s)
+	}
+	return s
 }
